@@ -7,7 +7,9 @@ A check module (checks/Cxx.py) provides
     run_case(case, seed) -> dict          see `norm_result`
     bounds(tier) -> dict                  the bounds actually used (for the evidence)
 """
+import contextlib
 import hashlib
+import io
 import importlib
 import json
 import os
@@ -114,7 +116,8 @@ def _worker_run(args):
     for idx, case in idx_cases:
         t0 = time.time()
         try:
-            res = _MOD.run_case(case, seed)
+            with contextlib.redirect_stdout(io.StringIO()):  # the library prints warnings at trace time
+                res = _MOD.run_case(case, seed)
         except Exception as e:  # a crash of the harness or the library on an enabled cell
             res = {
                 "status": "violation",
